@@ -106,7 +106,7 @@ Record redeem_facts (cfg : config) (s : state) (auth : option nat) (code : pres)
 Definition minted_record (cfg : config) (s : state) (r : req) (cl : client) : req :=
   {| r_id := r_id r; r_client := r_client r; r_cl := cl; r_rscopes := r_rscopes r; r_gscopes := r_gscopes r;
      r_raud := r_raud r; r_gaud := r_gaud r; r_sess := set_token_expiries cfg (now s) (r_sess r); r_redirect := "";
-     r_challenge := ""; r_method := ""; r_at := now s |}.
+     r_challenge := ""; r_method := ""; r_mode := ""; r_at := now s |}.
 
 Lemma grant_tokens_records s stored w :
   let s' := fst (grant_tokens s stored w) in
